@@ -6,7 +6,7 @@ SCR="$(mktemp -d /dev/shm/dsim-seedchk-XXXXXX)"
 trap 'rm -rf "$SCR"' EXIT
 rsync -a --exclude .git --exclude docs --exclude '*.pyc' --exclude __pycache__ /repo/ "$SCR/"
 cd "$SCR" || exit 2
-if ! patch -p1 -s < "$D/patch.diff"; then echo "$(basename $D): PATCH-DOES-NOT-APPLY"; exit 1; fi
+if ! git apply --whitespace=nowarn "$D/patch.diff"; then echo "$(basename $D): PATCH-DOES-NOT-APPLY-EXACTLY"; exit 1; fi
 ( cd /tmp && PYTHONPATH=/repo timeout 300 /venv/bin/python -W ignore "$D/demo.py" >/dev/null 2>&1 ); CLEAN=$?
 ( cd /tmp && PYTHONPATH="$SCR" timeout 300 /venv/bin/python -W ignore "$D/demo.py" >/dev/null 2>&1 ); PATCHED=$?
 DSIM_BASELINE_TREE="$SCR" /venv/bin/python /verif/tools/baseline.py > "$SCR/base.log" 2>&1; TESTS=$?
